@@ -290,6 +290,10 @@ func buildScenario(kind string, r *rng, tier string) *scenario {
 		sc.g, nops = 4, 1
 		sc.sheets = []string{"Sheet1"}
 	}
+	if kind == "w-first" {
+		sc.sheets = []string{"Sheet1", "F2", "F3", "F4", "F5", "F6"}
+		sc.g, nops, sc.procs, sc.lockstep = 8+r.intn(5), 2*len(sc.sheets), 8, true
+	}
 	if kind == "spill" {
 		sc.g, nops, sc.procs, sc.lockstep = 4+r.intn(5), 60, 8, true
 		sc.sheets = []string{"Sheet1", "Data2"}
@@ -333,7 +337,25 @@ func buildScenario(kind string, r *rng, tier string) *scenario {
 			cell := cellName(ck)
 			w := r.intn(100)
 			var kindSel string
+			force := "" // payload class forced by a witness
 			switch kind {
+			case "w-first": // witness: FIRST call on a not yet parsed worksheet, by every documented function
+				k := i / 2
+				sheet = sc.sheets[k%len(sc.sheets)]
+				private = true
+				ck = 60 + t*12 + r.intn(12)
+				cell = cellName(ck)
+				kindSel = "setval" // odd rounds: one distinct-cell write per goroutine on the sheet just touched
+				if i%2 == 0 {
+					switch sel := firstTouch[(t+k*sc.g)%len(firstTouch)]; sel {
+					case "settime":
+						kindSel, force = "setval", "time"
+					case "setdur":
+						kindSel, force = "setval", "duration"
+					default:
+						kindSel = sel
+					}
+				}
 			case "cells":
 				kindSel = pickW(w, "setval", 62, "typed", 10, "getval", 14, "getstyle", 6, "sheetrow", 8)
 			case "styles":
@@ -384,7 +406,11 @@ func buildScenario(kind string, r *rng, tier string) *scenario {
 					private = false
 				}
 				v, d := g.payload(!private)
-				if kind == "w-time" {
+				if force == "duration" {
+					g.uniq++
+					v, d = time.Duration(g.uniq)*time.Second+time.Duration(g.uniq%7)*time.Hour, "duration"
+				}
+				if kind == "w-time" || force == "time" {
 					g.uniq++
 					u := g.uniq
 					v, d = time.Date(2001+u%20, time.Month(1+u%12), 1+u%28, u%24, u%60, u%60, 0, time.UTC).AddDate(0, 0, u*37), "time"
@@ -578,6 +604,20 @@ func buildScenario(kind string, r *rng, tier string) *scenario {
 			for _, sh := range sc.sheets {
 				if err := f.AddPicture(sh, "A1", imgPath("excel.png"), nil); err != nil {
 					return err
+				}
+			}
+			return nil
+		}
+	case "w-first":
+		sc.reopen = true
+		sc.prep = func(f *xl.File) error {
+			// enough content for the first parse of a sheet to take a while
+			for _, sh := range sc.sheets {
+				for k := 0; k < 1200; k++ {
+					n, _ := xl.CoordinatesToCellName(160+k%8, 200+k/8)
+					if err := f.SetCellValue(sh, n, k); err != nil {
+						return err
+					}
 				}
 			}
 			return nil
@@ -1317,9 +1357,13 @@ func watchdog(out string) {
 
 var kinds = []string{"cells", "styles", "cols", "dviter", "pictures", "reopen", "sheetrow", "formulas", "mix"}
 
+// firstTouch: what a goroutine's first call on an unparsed worksheet can be (witness w-first)
+var firstTouch = []string{"setstyle", "setval", "settime", "getval", "addpic", "colstyle", "colw", "colvis", "dvadd",
+	"getstyle", "getcolw", "rows", "cols", "getpic", "sheetrow", "typed", "setdur", "getcolvis", "getcolstyle"}
+
 // witness scenarios run first on every run: each hammers one pair of functions for which the
 // model predicts (or predicted, before a fix) unsynchronised access
-var witnessKinds = []string{"w-time", "w-fmt", "w-setstyle", "w-colstyle", "formulas", "reopen", "w-getpic", "w-row", "w-ctypes", "w-media", "spill"}
+var witnessKinds = []string{"w-time", "w-fmt", "w-setstyle", "w-colstyle", "formulas", "reopen", "w-getpic", "w-row", "w-ctypes", "w-media", "spill", "w-first"}
 
 func main() {
 	seed := flag.Uint64("seed", 1, "")
@@ -1331,7 +1375,7 @@ func main() {
 	flag.Parse()
 	total := *n
 	if total == 0 {
-		total = 54
+		total = 56
 		if *tier == "thorough" {
 			total = 400
 		}
